@@ -26,6 +26,7 @@ package cors
 
 //@ func Middleware.Wrap$1
 //@   props C03 C09 C11 C16 C17 C18
+//@   allocs <= 8
 //@   uses glob_singletons
 //@   frozen E! MP! MV! F!origins_node F!util_Set F!cors_internalConfig F!http_Request
 //@   requires m != nil && r != nil
